@@ -85,19 +85,29 @@ func PipelineStepOutputs(stmts []*gripql.GraphStatement) map[string][]string {
 	out := map[string][]string{}
 	for i := len(stmts) - 1; i >= 0; i-- {
 		gs := stmts[i]
+		//every field a statement reads needs the data of the step it lives on:
+		//the current step, or the step a referenced mark was taken at
+		for _, f := range statementFields(gs) {
+			n := jsonpath.GetNamespace(f)
+			if n == jsonpath.Current {
+				out[steps[i]] = []string{"*"}
+			} else if a, ok := asMap[n]; ok {
+				out[a] = []string{"*"}
+			}
+		}
 		switch gs.GetStatement().(type) {
 		case *gripql.GraphStatement_Count:
 			onLast = false
 		case *gripql.GraphStatement_Select:
-			if onLast {
-				sel := gs.GetSelect().Marks
-				for _, s := range sel {
-					if a, ok := asMap[s]; ok {
-						out[a] = []string{"*"}
-					}
+			//a selected mark becomes the current element (or part of the output):
+			//whatever follows may read its data
+			sel := gs.GetSelect().Marks
+			for _, s := range sel {
+				if a, ok := asMap[s]; ok {
+					out[a] = []string{"*"}
 				}
-				onLast = false
 			}
+			onLast = false
 		case *gripql.GraphStatement_Distinct:
 			//if there is a distinct step, we need to load data, but only for requested fields
 			fields := protoutil.AsStringList(gs.GetDistinct())
@@ -135,6 +145,93 @@ func PipelineStepOutputs(stmts []*gripql.GraphStatement) map[string][]string {
 		}
 	}
 	return out
+}
+
+// statementFields lists the field paths a statement reads from the traveler
+func statementFields(gs *gripql.GraphStatement) []string {
+	switch stmt := gs.GetStatement().(type) {
+	case *gripql.GraphStatement_Has:
+		return hasExpressionFields(stmt.Has)
+	case *gripql.GraphStatement_HasKey:
+		return protoutil.AsStringList(stmt.HasKey)
+	case *gripql.GraphStatement_Distinct:
+		return protoutil.AsStringList(stmt.Distinct)
+	case *gripql.GraphStatement_Fields:
+		//exclusions keep everything else, so the whole element is needed
+		return []string{"_data"}
+	case *gripql.GraphStatement_Unwind:
+		return []string{stmt.Unwind}
+	case *gripql.GraphStatement_Render:
+		return templateFields(stmt.Render.AsInterface())
+	case *gripql.GraphStatement_Aggregate:
+		out := []string{}
+		for _, a := range stmt.Aggregate.Aggregations {
+			switch agg := a.Aggregation.(type) {
+			case *gripql.Aggregate_Term:
+				out = append(out, agg.Term.Field)
+			case *gripql.Aggregate_Histogram:
+				out = append(out, agg.Histogram.Field)
+			case *gripql.Aggregate_Percentile:
+				out = append(out, agg.Percentile.Field)
+			case *gripql.Aggregate_Field:
+				out = append(out, agg.Field.Field)
+			case *gripql.Aggregate_Type:
+				out = append(out, agg.Type.Field)
+			}
+		}
+		return out
+	case *gripql.GraphStatement_Set:
+		return []string{stmt.Set.Key}
+	case *gripql.GraphStatement_Increment:
+		return []string{stmt.Increment.Key}
+	case *gripql.GraphStatement_Jump:
+		return hasExpressionFields(stmt.Jump.Expression)
+	}
+	return nil
+}
+
+func hasExpressionFields(e *gripql.HasExpression) []string {
+	if e == nil {
+		return nil
+	}
+	out := []string{}
+	if c := e.GetCondition(); c != nil {
+		out = append(out, c.Key)
+	}
+	if l := e.GetAnd(); l != nil {
+		for _, x := range l.Expressions {
+			out = append(out, hasExpressionFields(x)...)
+		}
+	}
+	if l := e.GetOr(); l != nil {
+		for _, x := range l.Expressions {
+			out = append(out, hasExpressionFields(x)...)
+		}
+	}
+	if n := e.GetNot(); n != nil {
+		out = append(out, hasExpressionFields(n)...)
+	}
+	return out
+}
+
+func templateFields(t interface{}) []string {
+	switch x := t.(type) {
+	case string:
+		return []string{x}
+	case []interface{}:
+		out := []string{}
+		for _, v := range x {
+			out = append(out, templateFields(v)...)
+		}
+		return out
+	case map[string]interface{}:
+		out := []string{}
+		for _, v := range x {
+			out = append(out, templateFields(v)...)
+		}
+		return out
+	}
+	return nil
 }
 
 // PipelineNoLoadPath identifies 'paths' which are groups of statements that move
